@@ -2125,8 +2125,8 @@ class ExpressionEvaluator(Parser):
             # - Python: true_result if (condition) else false_result
             if operator.token == "?":
                 condition = expr
-                false_result = rhs
-                expr = true_result if condition else false_result
+                true_result, false_result = self.__convert(true_result, rhs)
+                expr = true_result if condition != 0 else false_result
             else:
                 expr = self.__apply_binary_op(operator.token, expr, rhs)
 
@@ -2152,16 +2152,29 @@ class ExpressionEvaluator(Parser):
             return exprs
 
     @staticmethod
+    def __convert(lhs, rhs):
+        """
+        Apply the usual arithmetic conversions: if either operand is
+        unsigned, the other operand is converted to unsigned.
+        """
+        if isinstance(lhs, np.uint64) != isinstance(rhs, np.uint64):
+            lhs = np.uint64(int(lhs) % 2**64)
+            rhs = np.uint64(int(rhs) % 2**64)
+        return (lhs, rhs)
+
+    @staticmethod
     def __apply_unary_op(op, operand):
         """
         Apply the specified unary operator: op operand
         """
         if op == "-":
+            if isinstance(operand, np.uint64):
+                return np.uint64(-int(operand) % 2**64)
             return -operand
         elif op == "+":
             return +operand
         elif op == "!":
-            return not operand
+            return np.int64(operand == 0)
         elif op == "~":
             return ~operand
         else:
@@ -2172,42 +2185,64 @@ class ExpressionEvaluator(Parser):
         """
         Apply the specified binary operator: lhs op rhs
         """
+        # The result of a logical operator is always 0 or 1.
         if op == "||":
-            return lhs or rhs
+            return np.int64(lhs != 0 or rhs != 0)
         elif op == "&&":
-            return lhs and rhs
-        elif op == "|":
+            return np.int64(lhs != 0 and rhs != 0)
+
+        # The result of a shift has the type of its left operand.
+        # Shifting by a negative or oversized amount is undefined.
+        if op in ["<<", ">>"]:
+            count = int(rhs)
+            if count < 0 or count >= 64:
+                return type(lhs)(0)
+            if op == "<<":
+                return lhs << type(lhs)(count)
+            return lhs >> type(lhs)(count)
+
+        lhs, rhs = ExpressionEvaluator.__convert(lhs, rhs)
+
+        if op == "|":
             return lhs | rhs
         elif op == "^":
             return lhs ^ rhs
         elif op == "&":
             return lhs & rhs
         elif op == "==":
-            return lhs == rhs
+            return np.int64(lhs == rhs)
         elif op == "!=":
-            return lhs != rhs
+            return np.int64(lhs != rhs)
         elif op == "<":
-            return lhs < rhs
+            return np.int64(lhs < rhs)
         elif op == "<=":
-            return lhs <= rhs
+            return np.int64(lhs <= rhs)
         elif op == ">":
-            return lhs > rhs
+            return np.int64(lhs > rhs)
         elif op == ">=":
-            return lhs >= rhs
-        elif op == "<<":
-            return lhs << rhs
-        elif op == ">>":
-            return lhs >> rhs
+            return np.int64(lhs >= rhs)
         elif op == "+":
             return lhs + rhs
         elif op == "-":
             return lhs - rhs
         elif op == "*":
             return lhs * rhs
-        elif op == "/":
-            return lhs // rhs  # force integer division
-        elif op == "%":
-            return lhs % rhs
+        elif op in ["/", "%"]:
+            # Division truncates toward zero, and the result of the
+            # remainder has the same sign as the dividend.
+            # Division by zero is undefined.
+            if rhs == 0:
+                return type(lhs)(0)
+            quotient = abs(int(lhs)) // abs(int(rhs))
+            if (lhs < 0) != (rhs < 0):
+                quotient = -quotient
+            if op == "/":
+                result = quotient
+            else:
+                result = int(lhs) - quotient * int(rhs)
+            if isinstance(lhs, np.uint64):
+                return np.uint64(result % 2**64)
+            return np.int64((result + 2**63) % 2**64 - 2**63)
         else:
             raise ValueError("Not a binary operator.")
 
